@@ -642,7 +642,7 @@ func genCase(r *Rng, ncuts int, adversarial bool) Sx {
 func gen(r *Rng, tier string, emit func(c Sx)) {
 	// hxlib's streams for seeds s and s+1 are shifts of one another; re-key on the first output
 	r = NewRng(r.U64())
-	nh, ncuts := 120, 48
+	nh, ncuts := 300, 48
 	if tier == "thorough" {
 		nh, ncuts = 1500, 90
 	}
